@@ -24,6 +24,10 @@ PY = os.path.join(ROOT, ".venv", "bin", "python")
 if not os.path.exists(PY):  # a snapshot of /verif (vp run): the venv lives in /verif
     PY = "/verif/.venv/bin/python"
 NCPU = int(os.environ.get("VERIF_JOBS", "0") or 0) or (os.cpu_count() or 4)
+# development aid (tools_mutate.py, seeded-change runs): write evidence / replay files elsewhere so that a run against a
+# scratch checkout does not overwrite the evidence of /repo itself.  The registered commands never set these.
+EVDIR = os.environ.get("VERIF_EVIDENCE_DIR") or os.path.join(ROOT, "evidence")
+RPDIR = os.environ.get("VERIF_REPLAY_DIR") or os.path.join(ROOT, "replay")
 EXIT_OK, EXIT_VIOLATION, EXIT_HARNESS = 0, 1, 3
 
 
@@ -282,7 +286,7 @@ def run_property(pid, tier, obligations, validators=(), assumptions=(), explanat
     replayed = 0
     samples = []
     nontrivial = set()
-    rdir = os.path.join(ROOT, "replay", pid)
+    rdir = os.path.join(RPDIR, pid)
     shutil.rmtree(rdir, ignore_errors=True)
     cex = []
     for j in jobs:
@@ -392,8 +396,8 @@ def run_property(pid, tier, obligations, validators=(), assumptions=(), explanat
         "wall_s": round(wall, 1),
         "violations": len(violations),
     }
-    os.makedirs(os.path.join(ROOT, "evidence"), exist_ok=True)
-    with open(os.path.join(ROOT, "evidence", pid + ".json"), "w") as f:
+    os.makedirs(EVDIR, exist_ok=True)
+    with open(os.path.join(EVDIR, pid + ".json"), "w") as f:
         json.dump(ev, f, indent=1, default=str)
 
     for l in lines:
